@@ -217,6 +217,9 @@ def to_lib_cdata(cd, B, vm):
     return vm.VmControlData('vm_ctl_data', nargs=cd['nargs'], stack=stack, save=save, cp=cd['cp'])
 
 
+_KW_FORM = [0]
+
+
 def to_lib_cont(v, B, vm):
     _, kind, f = v
     kw = {}
@@ -229,7 +232,20 @@ def to_lib_cont(v, B, vm):
             kw[k] = to_lib_cont(x, B, vm)
         else:
             kw[k] = x
-    return vm.VmCont(kind, **kw)
+    # keyword arguments carry no order: schema order, reversed, rotated, and fields assigned after construction must all denote the same continuation
+    _KW_FORM[0] += 1
+    form = _KW_FORM[0] % 4
+    items = list(kw.items())
+    if form == 1:
+        items.reverse()
+    elif form == 2:
+        items = items[1:] + items[:1]
+    elif form == 3 and len(items) > 1:
+        c = vm.VmCont(kind, **{k: None for k, _ in reversed(items)})
+        for k, x in items:
+            setattr(c, k, x)
+        return c
+    return vm.VmCont(kind, **dict(items))
 
 
 def same(v, got, B, vm, path='$'):
@@ -530,6 +546,53 @@ def describe(items, d=0):
     return out
 
 
+def failed_then_repaired(R, B, vm, rng):
+    """a serialisation that fails inside nested tuples (an integer outside the 257-bit range, an over-long byte string) must leave no trace: the caller repairs
+    the offending entry and serialises the SAME objects again - the cell is the schema encoding of the repaired stack, equal to that of a fresh equal stack"""
+    bad = rng.choice([1 << 256, -(1 << 256) - 1, 1 << 300, b'x' * 33])
+    good = rng.choice([0, -1, 2 ** 63, -2 ** 256, 2 ** 256 - 1])
+    depth = rng.choice([1, 2, 3])
+    pos = rng.choice(['first', 'middle', 'last'])
+    inner_items = {'first': [bad, 3, 4], 'middle': [1, bad, 3], 'last': [1, 2, bad]}[pos]
+    holder = vm.VmTuple(list(inner_items))
+    top = holder
+    ref_inner = None
+    for d in range(depth - 1):
+        top = vm.VmTuple([10 + d, top, vm.VmTuple([d])] if d % 2 == 0 else [top, 20 + d])
+    stack = [5, top, None] if rng.random() < 0.5 else [top]
+    W = {'bad_entry': repr(bad)[:40], 'nesting': depth, 'position': pos, 'stack_len': len(stack)}
+    st, out = mon.call(vm.VmStack.serialize, stack)
+    R.cover('failed_serialisation_outcomes', f'{type(bad).__name__}:{st}:{type(out).__name__ if st == "exc" else "cell"}')
+    R.count('failed_then_repaired_cases')
+    # repair in place and serialise the same objects again
+    idx = inner_items.index(bad)
+    R.check(len(holder.list) == 3 and len(stack) in (1, 3), 'failed-serialize-consumes-caller-values', f'a failed VmStack.serialize changed the caller-held tuple / list: {mon.srepr(holder.list, 60)}', W)
+    if len(holder.list) != 3:
+        return
+    holder.list[idx] = good
+
+    def logical(x):
+        if isinstance(x, vm.VmTuple):
+            return ('tuple', [logical(i) for i in x.list])
+        return x
+    items = [logical(x) for x in stack]
+    want = rc.RC(*enc_stack(items))
+    st, c1 = mon.call(vm.VmStack.serialize, stack)
+    R.counters['oracle_evaluations'] += 1
+    if st == 'exc':
+        R.exc(c1)
+        R.violation('serialize-after-failed-serialize-raises', f'serialising the repaired values after a failed serialisation raised {c1!r}', W)
+        return
+    if good != -2 ** 63:
+        R.check(c1.hash == want.hash, 'serialize-after-failed-serialize-differs', 'the repaired values serialise to a cell other than the schema encoding after an earlier failed serialisation', W)
+    fresh = [to_lib_value(v, B, vm) for v in items]
+    st, c2 = mon.call(vm.VmStack.serialize, fresh)
+    R.check(st == 'ok' and c2.hash == c1.hash, 'serialize-after-failed-serialize-differs', 'fresh equal values serialise differently from the repaired ones', W)
+    st, got = mon.call(vm.VmStack.deserialize, c1.begin_parse())
+    ok = st == 'ok' and isinstance(got, list) and len(got) == len(items) and all(same(a, b, B, vm, '$') is None for a, b in zip(items, got))
+    R.check(ok, 'roundtrip-after-failed-serialize', f'the repaired stack does not round-trip: {mon.srepr(got, 80)}', W)
+
+
 def deep_values(R, B, vm):
     """values whose encoding nests hundreds of cells - tuples of 256..1000 entries (the length field has 16 bits; one more cell level per entry), tuples nested
     100..1000 deep, stacks of 500..1022 entries - serialised and parsed by the library under Python's default recursion limit; the reference encoder runs
@@ -740,6 +803,11 @@ def run(R):
             R.case(mon.fp('tuplen', n))
     if R.shard == 0:
         deep_values(R, B, vm)
+    for i in range((60 if quick else 3000) // R.nshards + 1):
+        st, e = mon.call(failed_then_repaired, R, B, vm, rng)
+        if st == 'exc':
+            raise e
+        R.case(mon.fp('failed-then-repaired', i, R.shard))
     R.floor('double_serialisations', 50)
     if R.nshards == 1:
         R.floor('control_data_combinations', 288)
